@@ -557,3 +557,64 @@ def task_cost_model():
     fns = [source.describe(RB + ':NameBinding.should_rename'), source.describe(RB + ':Binding.old_mention_count'), source.describe(RB + ':Binding.new_mention_count'),
            source.describe(RB + ':Binding.additional_byte_cost'), source.describe(RL + ':HoistedBinding.should_rename')]
     return result(obs, fns, ASSUMPTIONS, notes=notes)
+
+
+def task_hoist_call():
+    """HoistLiterals.__call__: the "annotations are postponed" flag is set whenever ANY statement of the module body is `from __future__ import ...`
+    with an alias named annotations (C06 / C01: under PEP 563 an annotation is evaluated later, possibly in another scope, so the visitors - whose
+    contracts take the flag as given - must be told); then the module is visited and the bindings are placed."""
+    P.install_symconst_type_support()
+    mod = source.import_module(RL)
+    name = 'C06/HoistLiterals.__call__'
+    import ast as real_ast
+
+    def run(ctx):
+        policy = RenPolicy()
+        interp = Interp(ctx, policy=policy)
+        policy.interp = interp
+        module = ctx.new_node({'Module'}, name='module')
+        o = ctx.new_obj('inst', mod.HoistLiterals, name='self')
+        calls = []
+        interp.hooks[RL + ':HoistLiterals.visit'] = lambda it, f, a, k: calls.append(('visit', a[1]))
+        for k in mod.HoistLiterals.__mro__:
+            if k.__module__.startswith('python_minifier') and 'visit' in k.__dict__:
+                interp.hooks['%s:%s.visit' % (k.__module__, k.__name__)] = lambda it, f, a, k: calls.append(('visit', a[1]))
+        interp.hooks[RL + ':HoistLiterals.place_bindings'] = lambda it, f, a, k: calls.append(('place',))
+        interp.call(interp.getattr(o, '__call__'), [module], {})
+        flag = ctx.data(o).fields.get('_lazy_annotations')
+        ctx.check(name + '/module-is-visited-then-bindings-are-placed', calls == [('visit', module), ('place',)], kind='post', detail=repr(calls))
+        ctx.check(name + '/sets-the-postponed-annotations-flag', flag is not None, kind='post')
+        if flag is None:
+            return
+        fz = flag if z3.is_expr(flag) else z3.BoolVal(bool(flag))
+        body = ctx.data(module).fields.get('body')
+        examined = [(k, e) for k, e in (ctx.data(body).items.items() if isinstance(body, Obj) else []) if isinstance(e, Obj)]
+        ctx.check(name + '/every-statement-of-the-module-body-is-examined', bool(examined), kind='post',
+                  detail='[needs-witness] the flag is computed without looking at the statements of the module body')
+        for k, e in examined:
+            ed = ctx.data(e)
+            if 'ImportFrom' not in ed.tags:
+                continue
+            if not (ed.tags == {'ImportFrom'} or ctx.branch(ed.tagvar == tag_const('ImportFrom'))):
+                continue
+            interp.narrow(e, {'ImportFrom'})
+            m = interp.getattr(e, 'module')
+            if m is None:
+                continue
+            names = interp.getattr(e, 'names')
+            al = [a for ak, a in ctx.data(names).items.items() if isinstance(a, Obj)]
+            ctx.check(name + '/alias-names-of-a-future-import-are-examined', bool(al) or ctx.solver.check(m == z3.StringVal('__future__')) != z3.sat, kind='post',
+                      detail='[needs-witness] a from-import statement is classified without looking at its alias names')
+            for a in al:
+                an = interp.getattr(a, 'name')
+                ctx.check(name + '/from-__future__-import-annotations-sets-the-flag',
+                          z3.Implies(z3.And(m == z3.StringVal('__future__'), an == z3.StringVal('annotations')), fz), kind='post',
+                          detail='an arbitrary statement of the module body is `from __future__ import annotations` (arbitrary alias) and the flag is %s' % (flag,))
+    ex = Explorer(max_paths=2000)
+    ex.explore(run)
+    res = result([o.to_json() for o in ex.obligations], [source.describe(RL + ':HoistLiterals.__call__')], [])
+    if ex.undecided_reason:
+        res['obligations'].append({'name': name + '/engine', 'status': 'undecided', 'detail': ex.undecided_reason, 'model': {}, 'time_s': 0, 'backend': 'engine', 'path': None,
+                                   'kind': 'engine', 'goal': None})
+    res['notes'].append('%s: %d feasible paths' % (name, len([p for p in ex.paths if p[0] == 'ok'])))
+    return res
